@@ -255,7 +255,7 @@ def parentPath (path : Str) : Str :=
 /-- `posixpath._joinrealpath(path, rest, strict=False, seen)` (posixpath.py:440-500) after the
 `isabs(rest)` prologue; `rest` is kept as the list of its remaining '/'-separated pieces (the loop
 takes them one by one with `partition`; the remaining string is their `'/'.join`).  `kfuel` is the
-kernel's ELOOP bound used by `os.lstat`; `fuel` bounds the Python recursion depth (a model
+kernel's ELOOP bound (links followed per resolution) used by `os.lstat`; `fuel` bounds the Python recursion depth (a model
 artefact: CPython's recursion limit).  Returns (path, ok, seen). -/
 def joinReal (fs : FS) (kfuel : Nat) (cwd : Loc) : Nat → Str → List Str → Seen → Str × Bool × Seen
   | _, path, [], seen => (path, true, seen)
@@ -309,11 +309,12 @@ def check2 (fs : FS) (kfuel fuel : Nat) (cwdS : Str) (cwd : Loc) (base loc : Str
   if hasNul base || hasNul loc then false
   else contained (realpath fs kfuel fuel cwdS cwd base) (realpath fs kfuel fuel cwdS cwd (tensorPath base loc))
 
-/-- what `os.path.samestat` compares (`st_ino`, `st_dev`): the inode of a regular file or of another
-non-directory object; a directory is identified by its location (a directory has one name; bind mounts
+/-- what `os.path.samestat` compares (`st_ino`, `st_dev`): the inode of a regular file, or of another
+non-directory object (never equal to a regular file's); a directory is identified by its location (a directory has one name; bind mounts
 are not modelled) -/
 inductive StatId where
   | ino (i : Nat)
+  | oth (i : Nat)
   | dir (l : Loc)
   deriving Repr, DecidableEq
 
@@ -323,7 +324,7 @@ def statId (fs : FS) (fuel : Nat) (cwd : Loc) (p : Str) : Option StatId :=
   | some l =>
     match fs.get l with
     | some (Node.file i) => some (StatId.ino i)
-    | some (Node.other i) => some (StatId.ino i)
+    | some (Node.other i) => some (StatId.oth i)
     | some Node.dir => some (StatId.dir l)
     | _ => none
   | none => none
@@ -331,8 +332,9 @@ def statId (fs : FS) (fuel : Nat) (cwd : Loc) (p : Str) : Option StatId :=
 /-- Check 3 (`_check_path_containment`, "Check 3", with D182 and D451 / D452): `os.stat(path)` - the very
 string the `open` that follows uses - failing skips the layer (that open fails the same way); then the
 answer of `os.path.realpath` is cross-checked against the kernel: `samestat(stat(path), stat(path_real))`
-and `samestat(stat(base_dir), stat(base_real))`, a failing stat or a difference raises (fail closed);
-`nlink > 1` raises; a file that is not regular raises. -/
+and `samestat(stat(base_dir), stat(base_real))`, and both answers must be fixed points of `realpath`
+(D453: `os.stat` follows links, equal inodes do not show that the answer is link-free); a failing stat
+or a difference raises (fail closed); `nlink > 1` raises; a file that is not regular raises. -/
 def check3 (fs : FS) (kfuel fuel : Nat) (cwdS : Str) (cwd : Loc) (base loc : Str) : Bool :=
   match statFile fs kfuel cwd (tensorPath base loc) with
   | none => true
@@ -341,7 +343,13 @@ def check3 (fs : FS) (kfuel fuel : Nat) (cwdS : Str) (cwd : Loc) (base loc : Str
           statId fs kfuel cwd (realpath fs kfuel fuel cwdS cwd (tensorPath base loc)),
           statId fs kfuel cwd base,
           statId fs kfuel cwd (realpath fs kfuel fuel cwdS cwd base) with
-    | some a, some b, some c, some d => decide (a = b) && decide (c = d) && decide (n ≤ 1) && reg
+    | some a, some b, some c, some d =>
+      decide (a = b) && decide (c = d) &&
+        decide (realpath fs kfuel fuel cwdS cwd (realpath fs kfuel fuel cwdS cwd (tensorPath base loc)) =
+          realpath fs kfuel fuel cwdS cwd (tensorPath base loc)) &&
+        decide (realpath fs kfuel fuel cwdS cwd (realpath fs kfuel fuel cwdS cwd base) =
+          realpath fs kfuel fuel cwdS cwd base) &&
+        decide (n ≤ 1) && reg
     | _, _, _, _ => false
 
 /-- `ExternalTensor._check_path_containment` (_core.py:760-825): the three layers in order. -/
@@ -894,8 +902,26 @@ def checkContainmentP (fs : FS) (kfuel fuel : Nat) (cwdS : Str) (cwd : Loc) (bas
             statIdP fs kfuel cwd base,
             statIdP fs kfuel cwd (realpathP fs kfuel fuel cwdS cwd base) with
       | some a, some b, some c, some d =>
-        if decide (a = b) && decide (c = d) && decide (n ≤ 1) && reg then Verdict.pass else Verdict.rej3
+        if decide (a = b) && decide (c = d) &&
+            decide (realpathP fs kfuel fuel cwdS cwd (realpathP fs kfuel fuel cwdS cwd (tensorPath base loc)) =
+              realpathP fs kfuel fuel cwdS cwd (tensorPath base loc)) &&
+            decide (realpathP fs kfuel fuel cwdS cwd (realpathP fs kfuel fuel cwdS cwd base) =
+              realpathP fs kfuel fuel cwdS cwd base) &&
+            decide (n ≤ 1) && reg then Verdict.pass else Verdict.rej3
       | _, _, _, _ => Verdict.rej3
+
+/-- an entry name: not "", ".", ".." and without a separator -/
+def cleanB (c : Str) : Bool := c != [] && c != DOT && c != DOTDOT && !c.contains '/'
+
+/-- `s` is the canonical absolute string "/c1/c2/..." of entry names, and none of the locations [c1],
+[c1, c2], ... is a symbolic link in the tree: what a correct answer of `os.path.realpath` looks like.
+Hypothesis of `C10_pathmax_safe`, evaluated on every generated case (driver: path.readsP, field "lf"). -/
+def linkFreeAnswer (fs : FS) (s : Str) : Bool :=
+  decide (s = '/' :: joinSep (comps s)) && (comps s).all cleanB &&
+    (List.range (comps s).length).all (fun k =>
+      match fs.get ((comps s).take (k + 1)) with
+      | some (Node.link _) => false
+      | _ => true)
 
 /-- a read of an unmapped tensor through `tofile` (check, open, copy) with PATH_MAX everywhere:
 verdict, what the open reached, result -/
